@@ -921,3 +921,244 @@ theorem rangedVs_complete (ro : Op) (rv : Ver) (rr : Str) (oo : Op) (ov : Ver) (
       · cases oo <;> simp_all [isRanged, isLtOp, isGtOp]
 
 end Pkgcore.C05
+
+namespace Pkgcore.C05
+open Pkgcore.C01 Pkgcore.C01.Spec Pkgcore.C04 Pkgcore.C04.Spec Pkgcore.C05.Spec Std
+open Pkgcore.C02 (Op Str verHashKey VKey CompK compK)
+
+attribute [local instance] lexOrd
+
+/-! ### `vInter`: the branches -/
+
+theorem verCmp_eq_PK (va vb : Ver) (ra rb : Str) (ha : WF va) (hb : WF vb) :
+    verCmp va (some ra) vb (some rb) = compare (PK (va, ra)) (PK (vb, rb)) := by
+  rw [verCmp_eq_pms_aux _ _ _ _ (Or.inr ⟨rfl, rfl⟩), pms_eq_PK va vb ra rb ha hb]
+
+theorem both_upper_sound (oa ob : Op) (va vb : Ver) (ra rb : Str) (ha : isLtOp oa = true) (hb : isLtOp ob = true)
+    (wa : WF va) (wb : WF vb) :
+    Sat (oa, va, ra) (if (verCmp va (some ra) vb (some rb) == .gt) = true then below vb else below va) ∧
+    Sat (ob, vb, rb) (if (verCmp va (some ra) vb (some rb) == .gt) = true then below vb else below va) ∧
+    WF (if (verCmp va (some ra) vb (some rb) == .gt) = true then below vb else below va).1 := by
+  rw [verCmp_eq_PK va vb ra rb wa wb]
+  by_cases hg : compare (PK (va, ra)) (PK (vb, rb)) = .gt
+  · simp only [hg, beq_self_eq_true, if_true]
+    have hba : LT (vb, rb) (va, ra) := OrientedCmp.lt_of_gt (cmp := (compare : VKT × Nat → VKT × Nat → Ordering)) hg
+    have h1 : LT (below vb) (vb, rb) := below_lt vb rb
+    exact ⟨(sat_upper oa va ra _ ha wa (below_WF _ wb)).mpr (Rel_of_LT (LT_trans h1 hba)),
+      (sat_upper ob vb rb _ hb wb (below_WF _ wb)).mpr (Rel_of_LT h1), below_WF _ wb⟩
+  · have hne : (compare (PK (va, ra)) (PK (vb, rb)) == Ordering.gt) = false := by
+      cases h : compare (PK (va, ra)) (PK (vb, rb)) <;> simp_all
+    simp only [hne, Bool.false_eq_true, if_false]
+    have hab : LE (va, ra) (vb, rb) := by
+      unfold LE; cases h : compare (PK (va, ra)) (PK (vb, rb)) <;> simp_all [Ordering.isLE]
+    have h1 : LT (below va) (va, ra) := below_lt va ra
+    exact ⟨(sat_upper oa va ra _ ha wa (below_WF _ wa)).mpr (Rel_of_LT h1),
+      (sat_upper ob vb rb _ hb wb (below_WF _ wa)).mpr (Rel_of_LT (LT_of_LT_of_LE h1 hab)), below_WF _ wa⟩
+
+theorem both_lower_sound (oa ob : Op) (va vb : Ver) (ra rb : Str) (ha : isGtOp oa = true) (hb : isGtOp ob = true)
+    (wa : WF va) (wb : WF vb) :
+    Sat (oa, va, ra) (if (verCmp va (some ra) vb (some rb) == .lt) = true then above vb rb else above va ra) ∧
+    Sat (ob, vb, rb) (if (verCmp va (some ra) vb (some rb) == .lt) = true then above vb rb else above va ra) ∧
+    WF (if (verCmp va (some ra) vb (some rb) == .lt) = true then above vb rb else above va ra).1 := by
+  rw [verCmp_eq_PK va vb ra rb wa wb]
+  by_cases hl : compare (PK (va, ra)) (PK (vb, rb)) = .lt
+  · simp only [hl, beq_self_eq_true, if_true]
+    have h1 : LT (vb, rb) (above vb rb) := above_gt vb rb
+    exact ⟨(sat_lower oa va ra _ ha wa (above_WF _ _ wb)).mpr (Rel_of_LT (LT_trans hl h1)),
+      (sat_lower ob vb rb _ hb wb (above_WF _ _ wb)).mpr (Rel_of_LT h1), above_WF _ _ wb⟩
+  · have hne : (compare (PK (va, ra)) (PK (vb, rb)) == Ordering.lt) = false := by
+      cases h : compare (PK (va, ra)) (PK (vb, rb)) <;> simp_all
+    simp only [hne, Bool.false_eq_true, if_false]
+    have hba : LE (vb, rb) (va, ra) := not_LT.mp hl
+    have h1 : LT (va, ra) (above va ra) := above_gt va ra
+    exact ⟨(sat_lower oa va ra _ ha wa (above_WF _ _ wa)).mpr (Rel_of_LT h1),
+      (sat_lower ob vb rb _ hb wb (above_WF _ _ wa)).mpr (Rel_of_LT (LT_of_LE_of_LT hba h1)), above_WF _ _ wa⟩
+
+/-- what the `=` branches compute: does `c` accept the version `p`? -/
+def accepts (c : VC) (p : Pt) : Bool :=
+  if c.1 = .glob then verGlobMatch c.2.1 c.2.2 p.1 p.2 else vMatch c.1 c.2.1 c.2.2 p.1 p.2
+
+theorem accepts_iff (c : VC) (p : Pt) (hc : WF c.2.1) (hp : WF p.1) : accepts c p = true ↔ Sat c p := by
+  obtain ⟨o, v, r⟩ := c
+  unfold accepts
+  by_cases h : o = .glob
+  · subst h; simp only [if_true]; exact (sat_glob v r p hc hp).symm
+  · simp only [h, if_false]; unfold Sat; rw [vMatch_eq_opSpec o v r p.1 p.2 h hc hp]
+
+theorem sat_own_eq (v : Ver) (r : Str) (h : WF v) : Sat (.eq, v, r) (v, r) := (sat_eq v r (v, r) h h).mpr rfl
+
+end Pkgcore.C05
+
+namespace Pkgcore.C05
+open Pkgcore.C01 Pkgcore.C01.Spec Pkgcore.C04 Pkgcore.C04.Spec Pkgcore.C05.Spec Std
+open Pkgcore.C02 (Op Str verHashKey VKey CompK compK)
+
+attribute [local instance] lexOrd
+
+/-- a version constraint as `atom.__init__` produces it: valid version; `~` never carries a revision -/
+def VCok (c : VC) : Prop := WF c.2.1 ∧ (c.1 = .tilde → natOfDigits c.2.2 = 0)
+
+/-! ### `vInter`: soundness — the witness is accepted by both constraints -/
+
+theorem vInter_sound (a b : VC) (ha : VCok a) (hb : VCok b) (h : vInter a b = true) :
+    Sat a (vWitness a b) ∧ Sat b (vWitness a b) ∧ WF (vWitness a b).1 := by
+  obtain ⟨oa, va, ra⟩ := a
+  obtain ⟨ob, vb, rb⟩ := b
+  have wa : WF va := ha.1
+  have wb : WF vb := hb.1
+  by_cases c1 : (isLtOp oa && isLtOp ob) = true
+  · simp only [vWitness, c1, if_true]
+    simp only [Bool.and_eq_true] at c1
+    exact both_upper_sound oa ob va vb ra rb c1.1 c1.2 wa wb
+  have c1' : (isLtOp oa && isLtOp ob) = false := by simpa using c1
+  by_cases c2 : (isGtOp oa && isGtOp ob) = true
+  · simp only [vWitness, c1', Bool.false_eq_true, if_false, c2, if_true]
+    simp only [Bool.and_eq_true] at c2
+    exact both_lower_sound oa ob va vb ra rb c2.1 c2.2 wa wb
+  have c2' : (isGtOp oa && isGtOp ob) = false := by simpa using c2
+  simp only [vInter, vWitness, c1', c2', Bool.or_self, Bool.false_eq_true, if_false] at h ⊢
+  by_cases e1 : oa = .eq
+  · subst e1
+    simp only [if_true] at h ⊢
+    exact ⟨sat_own_eq va ra wa, (accepts_iff (ob, vb, rb) (va, ra) wb wa).mp h, wa⟩
+  simp only [e1, if_false] at h ⊢
+  by_cases e2 : ob = .eq
+  · subst e2
+    simp only [if_true] at h ⊢
+    exact ⟨(accepts_iff (oa, va, ra) (vb, rb) wa wb).mp h, sat_own_eq vb rb wb, wb⟩
+  simp only [e2, if_false] at h ⊢
+  by_cases e3 : oa = .tilde ∧ ob = .tilde
+  · obtain ⟨rfl, rfl⟩ := e3
+    simp only [and_self, if_true] at h ⊢
+    exact ⟨(sat_tilde va ra _ wa wa).mpr rfl, (sat_tilde vb rb _ wb wa).mpr ((sameV_iff va vb wa wb).mp h), wa⟩
+  simp only [e3, if_false] at h ⊢
+  by_cases e4 : oa = .glob ∧ ob = .glob
+  · obtain ⟨rfl, rfl⟩ := e4
+    simp only [and_self, if_true, Bool.or_eq_true] at h ⊢
+    by_cases g : verGlobMatch vb rb va ra = true
+    · simp only [g, if_true]
+      exact ⟨(sat_glob va ra _ wa wa).mpr (glob_own va ra), (sat_glob vb rb _ wb wa).mpr g, wa⟩
+    · simp only [g, Bool.false_eq_true, if_false, false_or] at h ⊢
+      exact ⟨(sat_glob va ra _ wa wb).mpr h, (sat_glob vb rb _ wb wb).mpr (glob_own vb rb), wb⟩
+  simp only [e4, if_false] at h ⊢
+  by_cases e5 : oa = .glob ∧ ob = .tilde
+  · obtain ⟨rfl, rfl⟩ := e5
+    simp only [and_self, if_true] at h ⊢
+    exact ⟨(sat_glob va ra _ wa wb).mpr h, (sat_tilde vb rb _ wb wb).mpr rfl, wb⟩
+  simp only [e5, if_false] at h ⊢
+  by_cases e6 : ob = .glob ∧ oa = .tilde
+  · obtain ⟨rfl, rfl⟩ := e6
+    simp only [and_self, if_true] at h ⊢
+    exact ⟨(sat_tilde va ra _ wa wa).mpr rfl, (sat_glob vb rb _ wb wa).mpr h, wa⟩
+  simp only [e6, if_false] at h ⊢
+  by_cases e7 : isRanged oa = true
+  · simp only [e7, if_true] at h ⊢
+    exact rangedVs_sound oa va ra ob vb rb e7 c1' c2' wa wb h
+  · have e7' : isRanged oa = false := by simpa using e7
+    simp only [e7', Bool.false_eq_true, if_false] at h ⊢
+    have hrb : isRanged ob = true := by
+      cases oa <;> cases ob <;> simp_all [isRanged, isLtOp, isGtOp]
+    have k1 : (isLtOp ob && isLtOp oa) = false := by cases oa <;> simp_all [isRanged, isLtOp, isGtOp]
+    have k2 : (isGtOp ob && isGtOp oa) = false := by cases oa <;> simp_all [isRanged, isLtOp, isGtOp]
+    have := rangedVs_sound ob vb rb oa va ra hrb k1 k2 wb wa h
+    exact ⟨this.2.1, this.1, this.2.2⟩
+
+end Pkgcore.C05
+
+namespace Pkgcore.C05
+open Pkgcore.C01 Pkgcore.C01.Spec Pkgcore.C04 Pkgcore.C04.Spec Pkgcore.C05.Spec Std
+open Pkgcore.C02 (Op Str verHashKey VKey CompK compK)
+
+attribute [local instance] lexOrd
+
+/-! ### `vInter`: completeness — a common version forces the answer `True` -/
+
+theorem vInter_complete (a b : VC) (ha : VCok a) (hb : VCok b) (x : Pt) (hx : WF x.1)
+    (sa : Sat a x) (sb : Sat b x) : vInter a b = true := by
+  obtain ⟨oa, va, ra⟩ := a
+  obtain ⟨ob, vb, rb⟩ := b
+  have wa : WF va := ha.1
+  have wb : WF vb := hb.1
+  by_cases c0 : ((isLtOp oa && isLtOp ob) || (isGtOp oa && isGtOp ob)) = true
+  · simp only [vInter, c0, if_true]
+  have c0' : ((isLtOp oa && isLtOp ob) || (isGtOp oa && isGtOp ob)) = false := by simpa using c0
+  have c1' : (isLtOp oa && isLtOp ob) = false := by
+    cases h : (isLtOp oa && isLtOp ob) <;> simp_all
+  have c2' : (isGtOp oa && isGtOp ob) = false := by
+    cases h : (isGtOp oa && isGtOp ob) <;> simp_all
+  simp only [vInter, c0', Bool.false_eq_true, if_false]
+  by_cases e1 : oa = .eq
+  · subst e1
+    simp only [if_true]
+    have hp : PK x = PK (va, ra) := (sat_eq va ra x wa hx).mp sa
+    exact (accepts_iff (ob, vb, rb) (va, ra) wb wa).mpr ((sat_congr (ob, vb, rb) x (va, ra) wb hx wa hp).mp sb)
+  simp only [e1, if_false]
+  by_cases e2 : ob = .eq
+  · subst e2
+    simp only [if_true]
+    have hp : PK x = PK (vb, rb) := (sat_eq vb rb x wb hx).mp sb
+    exact (accepts_iff (oa, va, ra) (vb, rb) wa wb).mpr ((sat_congr (oa, va, ra) x (vb, rb) wa hx wb hp).mp sa)
+  simp only [e2, if_false]
+  by_cases e3 : oa = .tilde ∧ ob = .tilde
+  · obtain ⟨rfl, rfl⟩ := e3
+    simp only [and_self, if_true]
+    have h1 := (sat_tilde va ra x wa hx).mp sa
+    have h2 := (sat_tilde vb rb x wb hx).mp sb
+    exact (sameV_iff va vb wa wb).mpr (h1.symm.trans h2)
+  simp only [e3, if_false]
+  by_cases e4 : oa = .glob ∧ ob = .glob
+  · obtain ⟨rfl, rfl⟩ := e4
+    simp only [and_self, if_true, Bool.or_eq_true]
+    exact glob_linear va ra vb rb x.1 x.2 ((sat_glob va ra x wa hx).mp sa) ((sat_glob vb rb x wb hx).mp sb)
+  simp only [e4, if_false]
+  -- a glob and a `~`: the glob matches the `~`'s version at the glob's own revision
+  have globTilde : ∀ (gv : Ver) (gr : Str) (tv : Ver) (tr : Str), WF gv → WF tv →
+      Sat (.glob, gv, gr) x → Sat (.tilde, tv, tr) x → verGlobMatch gv gr tv gr = true := by
+    intro gv gr tv tr wg wt sg st'
+    have hv : VK x.1 = VK tv := (sat_tilde tv tr x wt hx).mp st'
+    have gx := (sat_glob gv gr x wg hx).mp sg
+    by_cases hz : natOfDigits gr = 0
+    · have e : PK (x.1, gr) = PK (tv, gr) := by simp only [PK, hv]
+      have s' : Sat (.glob, gv, gr) (x.1, gr) := by
+        apply (sat_glob gv gr (x.1, gr) wg hx).mpr
+        rw [glob_norev gv gr x.1 gr x.2 wg hx hz, ← glob_norev gv gr x.1 x.2 x.2 wg hx hz]; exact gx
+      exact (sat_glob gv gr (tv, gr) wg wt).mp ((sat_congr (.glob, gv, gr) (x.1, gr) (tv, gr) wg hx wt e).mp s')
+    · have e := (glob_rev gv gr x.1 x.2 wg hx hz).mp gx
+      apply (glob_rev gv gr tv gr wg wt hz).mpr
+      simp only [PK, Prod.mk.injEq] at e ⊢
+      exact ⟨e.1.trans hv, trivial⟩
+  by_cases e5 : oa = .glob ∧ ob = .tilde
+  · obtain ⟨rfl, rfl⟩ := e5
+    simp only [and_self, if_true]
+    exact globTilde va ra vb rb wa wb sa sb
+  simp only [e5, if_false]
+  by_cases e6 : ob = .glob ∧ oa = .tilde
+  · obtain ⟨rfl, rfl⟩ := e6
+    simp only [and_self, if_true]
+    exact globTilde vb rb va ra wb wa sb sa
+  simp only [e6, if_false]
+  by_cases e7 : isRanged oa = true
+  · simp only [e7, if_true]
+    exact rangedVs_complete oa va ra ob vb rb e7 c1' c2' e2 wa wb hb.2 x hx sa sb
+  · have e7' : isRanged oa = false := by simpa using e7
+    simp only [e7', Bool.false_eq_true, if_false]
+    have hrb : isRanged ob = true := by
+      cases oa <;> cases ob <;> simp_all [isRanged, isLtOp, isGtOp]
+    have k1 : (isLtOp ob && isLtOp oa) = false := by cases oa <;> simp_all [isRanged, isLtOp, isGtOp]
+    have k2 : (isGtOp ob && isGtOp oa) = false := by cases oa <;> simp_all [isRanged, isLtOp, isGtOp]
+    exact rangedVs_complete ob vb rb oa va ra hrb k1 k2 e1 wb wa ha.2 x hx sb sa
+
+/-- a single constraint is satisfiable, by `ownWitness` -/
+theorem ownWitness_sat (c : VC) (hc : VCok c) : Sat c (ownWitness c) ∧ WF (ownWitness c).1 := by
+  obtain ⟨o, v, r⟩ := c
+  have w : WF v := hc.1
+  cases o
+  case lt => exact ⟨(sat_upper .lt v r _ rfl w (below_WF _ w)).mpr (below_lt v r), below_WF _ w⟩
+  case gt => exact ⟨(sat_lower .gt v r _ rfl w (above_WF _ _ w)).mpr (above_gt v r), above_WF _ _ w⟩
+  case le => exact ⟨(sat_upper .le v r _ rfl w w).mpr (LE_refl _), w⟩
+  case ge => exact ⟨(sat_lower .ge v r _ rfl w w).mpr (LE_refl _), w⟩
+  case eq => exact ⟨sat_own_eq v r w, w⟩
+  case tilde => exact ⟨(sat_tilde v r _ w w).mpr rfl, w⟩
+  case glob => exact ⟨(sat_glob v r _ w w).mpr (glob_own v r), w⟩
+
+end Pkgcore.C05
